@@ -328,7 +328,8 @@ Section InterpPriv.
   Lemma construct_full_priv : forall c sch m h h' res,
     private_attrs h -> construct_full W rec c sch m h = (h', res) -> private_attrs h'.
   Proof.
-    unfold construct_full, bindv. intros c sch m h h' res P H.
+    unfold construct_full, bindv. intros c sch m0 h h' res P H.
+    destruct (merge_custom h m0) as [m|]; [|inversion H; subst; auto].
     destruct (construct_body W rec c sch m h) as [h1 r1] eqn:Eb.
     assert (P1 := construct_body_priv _ _ _ _ _ _ P Eb).
     crunch H; eauto using ext_step_priv.
